@@ -70,8 +70,6 @@ const c15Rule = "case = 1..3 stop/start cycles of the real collector binary (eac
 func genC15(t *rapid.T) c15Case {
 	envs := map[string]*wire.GenEnv{"ipfix": wire.NewGenEnv("ipfix"), "nf9": wire.NewGenEnv("nf9")}
 	envs["ipfix"].NoEnterprise = true
-	// every data message must fit the instances' 1500-octet receive buffers, or it can never be acknowledged
-	envs["ipfix"].NoLongFields, envs["nf9"].NoLongFields = true, true
 	var c c15Case
 	ne := rapid.IntRange(1, 8).Draw(t, "nexp")
 	used := map[int]bool{}
